@@ -26,8 +26,11 @@ PatVerdict(e) ==
   ELSE IF e.carrier = "stream" THEN
        \* (e.lead_n copies of the packet e.lead of another PID come first: they do not change which PID-0 packet is the first)
        IF e.lead_n > 0 /\ (Len(e.lead) # 188 \/ Get("pid", e.lead) = 0) THEN "harness-bad-lead"
-       ELSE IF PatPkts(e.stream) = {} THEN (IF e.err # "notfound" THEN "pat-not-found-error" ELSE "")
-       ELSE LET p == e.stream[FirstPatIdx(e.stream)] IN
+       ELSE IF e.skip > Len(e.stream) THEN "harness-bad-skip"
+       \* (the first e.skip packets were consumed by the caller before the reader was handed over: the stream is what is left)
+       ELSE LET rest == SubSeq(e.stream, e.skip + 1, Len(e.stream)) IN
+       IF PatPkts(rest) = {} THEN (IF e.err # "notfound" THEN "pat-not-found-error" ELSE "")
+       ELSE LET p == rest[FirstPatIdx(rest)] IN
             IF ~HasPayload(p) \/ ~IsPatPayload(PayloadOf(p), pat) THEN "harness-bad-bytes" ELSE Observed(e, pat)
   ELSE "harness-unknown-carrier"
 IsPmtVerdict(e) ==
